@@ -48,9 +48,18 @@ Definition not_transmitted : list (string * string) := [
   ("types.V2Block", "ParentID"); ("types.V2Block", "Nonce"); ("types.V2Block", "Timestamp"); ("types.V2Block", "MinerPayouts"); ("types.V2Block", "Transactions");
   ("rhp/v3.InstrReadRegistryNoVersion", "InstrReadRegistry"); ("rhp/v3.InstrUpdateRegistryNoType", "InstrUpdateRegistry")  (* embedded, encoded field by field *)
 ].
+(* gateway RPC objects have one codec for the request and one for the response ("Type#request", "Type#response"):
+   a field is covered when either of them writes it; the embedded emptyRequest / emptyResponse carry no data *)
+Definition base_name (s : string) : string :=
+  match index 0 "#" s with Some i => substring 0 i s | None => s end.
+Definition sibling_writes (tn f : string) : bool :=
+  existsb (fun x => let '(tn2, _, ps2) := x in
+             String.eqb (base_name tn2) (base_name tn) && negb (String.eqb tn2 tn) && existsb (fun p => substringb ("." ++ f) p) ps2) gen_fields.
 Definition field_ok (tn : string) (paths : list string) (f : string) : bool :=
   existsb (fun p => substringb ("." ++ f) p) paths
-  || existsb (fun '(t, g) => String.eqb t tn && String.eqb g f) not_transmitted.
+  || existsb (fun '(t, g) => String.eqb t tn && String.eqb g f) not_transmitted
+  || sibling_writes tn f
+  || String.eqb f "emptyRequest" || String.eqb f "emptyResponse".
 Definition fields_ok (x : string * list string * list string) : bool :=
   let '(tn, fs, ps) := x in
   existsb (String.eqb tn) gen_opaque || forallb (field_ok tn ps) fs.
